@@ -443,6 +443,19 @@ fn grammar_strings(thorough: bool) -> Vec<(StreamKind, Endpoint, Vec<u8>)> {
         out.push((StreamKind::Request, me, rf::frame(rf::HEADERS, &[0x01, 0x00, 0xd1])));
         out.push((StreamKind::Request, me, rf::frame(rf::HEADERS, &[0x00, 0x00, 0xff, 0xff])));
         out.push((StreamKind::Request, me, rf::frame(rf::HEADERS, &[])));
+        // section prefixes with extreme integers: Required Insert Count and (signed) Delta Base at 0, 2^62 and the
+        // largest value ten continuation bytes can carry
+        {
+            let huge: [&[u8]; 3] = [&[0xff, 0x81, 0xff, 0xff, 0xff, 0xff, 0xff, 0xff, 0xff, 0x7f], &[0xff, 0x80, 0x80, 0x80, 0x80, 0x80, 0x80, 0x80, 0x80, 0x40], &[0xff, 0xff, 0xff, 0xff, 0xff, 0xff, 0xff, 0xff, 0xff, 0x01]];
+            for ric in [&[0x00u8][..], huge[0], huge[1], huge[2]] {
+                for db in [&[0x00u8][..], &[0x80u8][..], huge[0], huge[1], huge[2], &[0x7f, 0x81, 0xff, 0xff, 0xff, 0xff, 0xff, 0xff, 0xff, 0x7f][..]] {
+                    let mut sec = ric.to_vec();
+                    sec.extend_from_slice(db);
+                    sec.push(0xd1);
+                    out.push((StreamKind::Request, me, rf::frame(rf::HEADERS, &sec)));
+                }
+            }
+        }
         // a field section without any field line (what send_trailers(HeaderMap::new()) emits), alone and as trailers
         out.push((StreamKind::Request, me, rf::frame(rf::HEADERS, &[0x00, 0x00])));
         {
@@ -579,7 +592,7 @@ pub fn run(args: &Args) -> i32 {
     rep.exhaustive = true;
     let l = if thorough { 3 } else { 2 };
     rep.rule = format!(
-        "(a) every byte string of length <= {l} on each of 9 stream kinds (request, control after SETTINGS, control as first bytes, QPACK encoder, QPACK decoder, push, WebTransport uni, unknown, and a unidirectional stream with nothing but the string: ended before, inside or right behind its type) x role x delivery (whole, one byte per read) x (FIN, left open){}; (b) grammar strings (request-stream sequences of <= {} frames over the C03 alphabet, control-stream sequences over the C04 alphabet, malformed/invalid field sections, a field section without field lines as head and as trailers, WebTransport signal, a head of more than 100 bytes and 40 unknown frames in front of a head (many transport reads per call under one-byte reads), unidirectional streams that stop before / inside / right behind their type) x one fault of {{FIN, RESET, STOP_SENDING, connection close, transport timeout, or no fault but a transport chunk boundary (bytes read before the rest is written)}} injected at EVERY byte offset x delivery (whole, per byte). (c) size extremes: field sections with N field lines for N around http::HeaderMap's capacity limits (24576/24577, 32768/32769; duplicates of one line and distinct names; as head and as trailers) and frames of every kind with declared lengths 2^32-1, 2^32, 2^62-1. (d) string literals announcing 2^31 ... 2^64-1 bytes with two bytes present (name and value position, plain and Huffman), each executed in a child process so that an aborting allocation is an observation. Real server / client run the documented call pattern including the sending half. Oracle: no panic in any poll (overflow checks + debug assertions on); at quiescence no call is pending on a finished/reset stream or a dead connection. states = distinct final (transport, observation) fingerprints; non-trivial = cases with a fault or >= 2 bytes.",
+        "(a) every byte string of length <= {l} on each of 9 stream kinds (request, control after SETTINGS, control as first bytes, QPACK encoder, QPACK decoder, push, WebTransport uni, unknown, and a unidirectional stream with nothing but the string: ended before, inside or right behind its type) x role x delivery (whole, one byte per read) x (FIN, left open){}; (b) grammar strings (request-stream sequences of <= {} frames over the C03 alphabet, control-stream sequences over the C04 alphabet, malformed/invalid field sections, a field section without field lines as head and as trailers, section prefixes with extreme Required Insert Count / Delta Base integers, WebTransport signal, a head of more than 100 bytes and 40 unknown frames in front of a head (many transport reads per call under one-byte reads), unidirectional streams that stop before / inside / right behind their type) x one fault of {{FIN, RESET, STOP_SENDING, connection close, transport timeout, or no fault but a transport chunk boundary (bytes read before the rest is written)}} injected at EVERY byte offset x delivery (whole, per byte). (c) size extremes: field sections with N field lines for N around http::HeaderMap's capacity limits (24576/24577, 32768/32769; duplicates of one line and distinct names; as head and as trailers) and frames of every kind with declared lengths 2^32-1, 2^32, 2^62-1. (d) string literals announcing 2^31 ... 2^64-1 bytes with two bytes present (name and value position, plain and Huffman), each executed in a child process so that an aborting allocation is an observation; (e) a body with 200 000 consecutive empty DATA frames, all buffered when the application reads (a stack overflow kills the process), in a child process as well. Real server / client run the documented call pattern including the sending half. Oracle: no panic in any poll (overflow checks + debug assertions on); at quiescence no call is pending on a finished/reset stream or a dead connection. states = distinct final (transport, observation) fingerprints; non-trivial = cases with a fault or >= 2 bytes.",
         if thorough { " (length 3: request and control kinds)" } else { "" },
         if thorough { 4 } else { 3 }
     );
@@ -677,6 +690,16 @@ pub fn run(args: &Args) -> i32 {
                 }
             }
         }
+    }
+    // (e) a body with a very long run of empty DATA frames (legal padding), all buffered when the application reads:
+    // a subject that recurses once per frame overflows its stack, which kills the process - hence also in a child
+    for (me, head) in [(Endpoint::Server, REQ_SECTION), (Endpoint::Client, RESP_SECTION)] {
+        let mut bytes = rf::frame(rf::HEADERS, head);
+        for _ in 0..200_000 {
+            bytes.extend_from_slice(&[0x00, 0x00]);
+        }
+        bytes.extend(rf::frame(rf::DATA, b"fada"));
+        isolated.push(Case { me, kind: StreamKind::Request, bytes, per_byte: false, fault: None, fin: true });
     }
     let seed = args.seed;
     let iso_accs = explore::par::run(&isolated, Acc::new, |_, case, acc| {
